@@ -32,9 +32,24 @@ Oracle decisions (only what is advertised is demanded):
    are exempt from the key-dependence requirement; the reason is recorded per model.
 
 Known defect reproduced (DESIGN §5 #9): Connector `RandomWalkGenerator` — a start cell without a free
-neighbour gets its first move from an all-zero probability vector (flat index -1), leaving the target at
-(-1, n-1): signature `connector.RandomWalkGenerator:agent-coordinate-outside-grid`.  The regression inputs
-(grid 10 / 10 agents / key 589; grid 5 / 4 agents / keys 189, 401, 465) are part of BOTH tiers.
+neighbour gets its first move from an all-zero probability vector (flat index -1 = cell (-1, n-1)).  Two
+symptoms of this one cause are seen: the target stays at (-1, n-1) (default config key 589; 5x5/4 agents
+keys 189, 401, 465), or the random walk continues from that off-grid cell, re-enters the grid and ends on
+an in-grid target that its own wire does not join to the start, leaving a stray cell at (n-1, n-1) (5x5/4
+agents key 61; 4x4/3 agents key 125).  A board is classified by the cause (an agent whose start has no
+neighbouring cell of its own wire on the solved board) and reported under the ONE signature
+`connector.RandomWalkGenerator:agent-coordinate-outside-grid`; the regression inputs are part of BOTH tiers.
+
+Other findings on the pinned tree (each under its own signature; see the final report of the build):
+ * `flat_pack.RandomFlatPackGenerator:blocks-do-not-tile-grid` — blocks are cropped to the top-left of their
+   3x3 array and then rotated, but the environment only lets the 3x3 array be placed fully inside the grid,
+   so a 2-row (2-column) block that has to sit on the bottom (right) edge can only get there in the 180
+   degree orientation; 20 of the 64 first keys at 2x2 blocks (e.g. PRNGKey(6)) admit no complete placement
+   at all (confirmed by exhaustive play of the real environment).
+ * `mmst.SplitRandomGenerator:node-degree-exceeds-max-degree` (`add_edge` rejects only when degree >
+   max_degree, so max_degree + 1 is reached) and `mmst.SplitRandomGenerator:edge-count-differs-from-num-edges`
+   (edge codes are direction dependent, (a,b) and (b,a) are stored as two edges, so the graph has fewer
+   distinct edges than `num_edges`).  Both contradict the generator docstring, neither affects solvability.
 """
 from __future__ import annotations
 
